@@ -283,6 +283,52 @@ def _e_gmv_from_dict(spec, rs, variant):
     return (lambda params: cls.from_dict(params).to_dict()), (d,), {}, None
 
 
+@entry('gmv.from_dict_then_refit', ['dict'])
+def _e_gmv_from_dict_refit(spec, rs, variant):
+    """A model rebuilt from the caller's dict is put to other use (refitted); the dict - and
+    the model it came from - must be left alone."""
+    from copulas.multivariate import GaussianMultivariate
+    m, df = _fitted_gmv(spec, rs)
+    d = m.to_dict()
+    other = mat(rs, 40, 2, 'df')
+    other.columns = ['p', 'q']
+
+    def call(params):
+        clone = GaussianMultivariate.from_dict(params)
+        clone.fit(other)
+        m.set_random_state(3)
+        return [clone.to_dict()['columns'], m.sample(2), m.to_dict()['columns']]
+    return call, (d,), {}, None
+
+
+@entry('uni.from_dict_then_refit', ['dict'])
+def _e_uni_from_dict_refit(spec, rs, variant):
+    from copulas.univariate import Univariate
+    m = _fitted_uni(spec, rs)
+    d = m.to_dict()
+    x2 = rs.normal(size=30) * 3 + 40
+
+    def call(params):
+        clone = Univariate.from_dict(params)
+        clone.fit(x2)
+        return [m.to_dict(), clone.to_dict()['type']]
+    return call, (d,), {}, None
+
+
+@entry('vine.from_dict_then_refit', ['dict'])
+def _e_vine_from_dict_refit(spec, rs, variant):
+    from copulas.multivariate import VineCopula
+    m, _ = _fitted_vine(spec, rs, 3)
+    d = m.to_dict()
+    other = mat(rs, 40, 3, 'df')
+
+    def call(params):
+        clone = VineCopula.from_dict(params)
+        clone.fit(other)
+        return [len(clone.trees), m.get_likelihood(np.array([[0.3, 0.4, 0.6]]))]
+    return call, (d,), {}, None
+
+
 @entry('vine.fit', ['df', 'df_int'])
 def _e_vine_fit(spec, rs, variant):
     from copulas.multivariate import VineCopula
@@ -380,6 +426,8 @@ def _e_scatter(spec, rs, variant):
     with_cols = variant.endswith('_columns')
     real, _ = _viz_frames(rs, dims + (1 if with_cols else 0), index=spec.get('index', 'range'))
     cols = list(real.columns[-dims:]) if with_cols else None
+    if cols and spec.get('reverse_columns'):
+        cols = cols[::-1]                 # requested order differs from the frame's order
     fn = viz.scatter_2d if dims == 2 else viz.scatter_3d
     want_cols = list(cols) if cols else list(real.columns[:dims])
 
@@ -396,6 +444,8 @@ def _e_compare(spec, rs, variant):
     real, synth = _viz_frames(rs, dims + (1 if with_cols else 0),
                               index=spec.get('index', 'range'))
     cols = list(real.columns[-dims:]) if with_cols else None
+    if cols and spec.get('reverse_columns'):
+        cols = cols[::-1]
     fn = viz.compare_2d if dims == 2 else viz.compare_3d
     want_cols = list(cols) if cols else list(real.columns[:dims])
 
@@ -425,6 +475,7 @@ def _rand_spec(rng):
             'vine_type': rng.choice(zoo.VINE_TYPES), 'kde': rng.random() < 0.4,
             'generic': rng.random() < 0.5, 'edges': rng.random() < 0.6,
             'index': rng.choice(['range', 'filtered', 'shifted', 'labels']),
+            'reverse_columns': rng.random() < 0.5,
             'dataset': rng.choice(['sample_bivariate_age_income', 'sample_trivariate_xyz',
                                    'sample_univariate_bimodal', 'sample_univariates',
                                    'sample_univariate_degenerate']),
@@ -446,7 +497,8 @@ def fixed_runs(tier):
                          'spec': {'cls': UNI[(len(runs)) % len(UNI)],
                                   'biv': zoo.BIV_FAMILIES[len(runs) % 3],
                                   'vine_type': zoo.VINE_TYPES[len(runs) % 3],
-                                  'index': ['range', 'filtered', 'shifted', 'labels'][len(runs) % 4]},
+                                  'index': ['range', 'filtered', 'shifted', 'labels'][len(runs) % 4],
+                                  'reverse_columns': len(runs) % 2 == 1},
                          'seed': 100 + len(runs), 'readonly': False, 'ops': []})
     return runs
 
